@@ -3,6 +3,8 @@ import MosnVerif.Gen.ProxyTerminate
 import MosnVerif.Lemmas.FilterInst
 import MosnVerif.Lemmas.FilterRegs
 import MosnVerif.Lemmas.FilterFinish
+import MosnVerif.Lemmas.Downstream.Backoff9  -- (proxy10 section at the end of the file)
+import MosnVerif.Lemmas.Downstream.TermInSetup10
 /-!
 # C14 — stream filters run in order, and a denied request is never forwarded (property theorems only)
 
@@ -597,5 +599,88 @@ example : trace ⟨toChain [⟨7, .BeforeRoute⟩, ⟨3, .AfterRoute⟩] (fun i 
 
 end Registrations
 /-! ## c14r7 END -/
+
+/-! ### ==== proxy10: the asynchronous denial on the shared downstream machine (every schedule, the back-off included) ==== -/
+
+end MosnVerif.Props.C14
+
+namespace MosnVerif.Props.C14
+open MosnVerif.Model.Downstream
+
+/-- **deny_not_forwarded_backoff**: the filter machine above delivers an asynchronous `TerminateStream` to the worker parked in
+`waitNotify`; the shared downstream machine (`Model/Downstream.lean`: every schedule of the extended label type) also delivers
+it while the worker is asleep in `doRetry`'s back-off — the attempt was given up for a retry, the response slot is free, the
+call is accepted.  On EVERY schedule that leaves the worker in the back-off with the local reply of an accepted call pending —
+whatever else landed during the rest of the sleep: the client's departure, the connection close, late frames of the given-up
+attempt, the global timer … — the wake-up creates NO upstream attempt: no `ConnectionPool.NewStream`, admitted or refused, no
+new client stream; the worker leaves the Retry phase with the reply (or, the client gone, cleans the stream).  The denied request
+is not forwarded.  Rests on the regenerated `doRetry` (`Gen.ProxyBackoff.doRetry`: `if s.directResponse { return }` after the
+sleep) and the regenerated `processError` / `TerminateStream`. -/
+theorem deny_not_forwarded_backoff (c : Cfg) (ar aq : Nat) (l : List Label)
+    (hb : backoff (run c (init ar aq) l) = true) (hacc : (run c (init ar aq) l).direct = true) :
+    (run c (init ar aq) (l ++ [.work])).streams.length = (run c (init ar aq) l).streams.length ∧
+    (run c (init ar aq) (l ++ [.work])).trace.filter attemptEv = (run c (init ar aq) l).trace.filter attemptEv ∧
+    ((run c (init ar aq) (l ++ [.work])).running = false ∨ (run c (init ar aq) (l ++ [.work])).phase ≠ .Retry) := by
+  have hi := inv_run c ar aq l
+  obtain ⟨hcl, _, _, _, _, _, _, _, _, _, _, hdf⟩ := backoff_facts c ar aq _ hi hb
+  have := wake_direct_no_attempt c (run c (init ar aq) l) hb hacc hcl (hdf hacc).2.1
+  simpa [run, List.foldl_append, step, att] using this
+
+/-- … and such a state is reached exactly by an accepted call: in the back-off (no local reply pending yet) `TerminateStream` is
+accepted iff no response headers are stored and the response slot is free; an accepted call leaves its reply pending, the
+worker asleep, the trace untouched -/
+theorem terminate_in_backoff_accepted (c : Cfg) (ar aq : Nat) (l : List Label) (code : Nat)
+    (hb : backoff (run c (init ar aq) l) = true) (hnd : (run c (init ar aq) l).direct = false) :
+    backoff (run c (init ar aq) (l ++ [.terminate code])) = true ∧
+    (run c (init ar aq) (l ++ [.terminate code])).trace = (run c (init ar aq) l).trace ∧
+    ((run c (init ar aq) (l ++ [.terminate code])).direct = true ↔
+      ((run c (init ar aq) l).resp.isSome = false ∧ (run c (init ar aq) l).urr = false)) := by
+  have h := terminate_backoff_spec c ar aq (run c (init ar aq) l) code (inv_run c ar aq l) hb
+  simp only [run, List.foldl_append, List.foldl_cons, List.foldl_nil, step]
+  simp only [run] at h hnd
+  refine ⟨h.2.2.1, h.1, ?_⟩
+  rw [h.2.2.2.2.2.1]
+  simp [hnd]
+
+/-- non-vacuity: attempt 0 is reset (retried), TerminateStream(403) lands in the back-off, then the client's connection is
+closed during the rest of the sleep; the wake-up: no attempt 1, no reply (the client is gone), the stream is cleaned -/
+example : ((fun (s : S) => (s.trace, s.cleaned, s.upActive))
+    (run { retryOn := true, numRetries := 2 } (init 0 0)
+      (List.replicate 12 .work ++ [.upReset 0 .StreamConnectionFailed, .work, .terminate 403, .connClose, .work]))) =
+    ([.un 0, .uh 0 true, .log 504 0x2000], true, 0) := by decide
+
+/-- **deny_inside_retry_setup_not_forwarded** (the tester's lead; defect reproduced on the real code and fixed by 4e7d4a7f0).
+The worker has decided to retry (`retryState.retry` answered `ShouldRetry`) and is inside `setupRetry`; an asynchronous
+`TerminateStream` of a receiver-filter handler lands THERE — at the worker's yield site after the mark, or after the swing of
+`upstreamResponseReceived`.  Both calls are the regenerated step programs (`Gen.ProxyBackoff.setupRetry` with its two
+interleaving points, `Gen.ProxyTerminate.terminateStream`).  After the swing the call is accepted whenever no response headers
+are stored (the slot was just freed); after the mark whenever the slot is free (retry decided on an upstream reset).  A local
+reply is then pending when the regenerated `processError` runs, and it ABANDONS the retry: it does not hand back the phase
+`Retry` — the only phase besides the first `receiveHeaders` in which an attempt is created —, clears the mark, detaches the
+given-up request.  The denied request is not forwarded. -/
+theorem deny_inside_retry_setup_not_forwarded (c : Cfg) (s : S) (eos e : Bool) (code : Nat) (he : s.globalExpired = false)
+    (hd : s.downReset = false) (hu : s.up.isSome = true) (hc : s.cleaned = false) (hr : s.resp.isSome = false) :
+    (let x := (Gen.ProxyBackoff.setupRetry (srOps c) id (termCall c code) eos s).1
+     x.direct = true ∧ (restOfPhase c x e).phase ≠ .Retry ∧ (restOfPhase c x e).setupRetry = false) ∧
+    (s.urr = false →
+     let x := (Gen.ProxyBackoff.setupRetry (srOps c) (termCall c code) id eos s).1
+     x.direct = true ∧ (restOfPhase c x e).phase ≠ .Retry ∧ (restOfPhase c x e).setupRetry = false) :=
+  terminate_inside_setup_abandons_retry c s eos e code he hd hu hc hr
+
+/-- the state in which the worker handles the reset of attempt 0 -/
+def exSetupCfg : Cfg := { retryOn := true, numRetries := 2 }
+def exSetupState : S := run exSetupCfg (init 0 0) (List.replicate 12 .work ++ [.upReset 0 .StreamConnectionFailed])
+
+/-- non-vacuity: that state satisfies the hypotheses; TerminateStream(403) at either site is accepted and the worker goes on to
+the response pass (UpFilter) with the reply, not to the Retry phase -/
+example :
+    (!exSetupState.globalExpired && !exSetupState.downReset && exSetupState.up.isSome && !exSetupState.cleaned &&
+      !exSetupState.resp.isSome && !exSetupState.urr) = true ∧
+    ((fun (x : S) => (x.phase, x.direct, x.respCode, x.setupRetry))
+      (restOfPhase exSetupCfg (Gen.ProxyBackoff.setupRetry (srOps exSetupCfg) id (termCall exSetupCfg 403) true exSetupState).1 true)) =
+      (.UpFilter, false, 403, false) ∧
+    ((fun (x : S) => (x.phase, x.direct, x.respCode, x.setupRetry))
+      (restOfPhase exSetupCfg (Gen.ProxyBackoff.setupRetry (srOps exSetupCfg) (termCall exSetupCfg 403) id true exSetupState).1 true)) =
+      (.UpFilter, false, 403, false) := by decide
 
 end MosnVerif.Props.C14
